@@ -32,6 +32,19 @@ HeadersAsMapping = typing.Mapping[ByteOrStr, ByteOrStr]
 logger = logging.getLogger("httpcore.proxy")
 
 
+def proxy_request_extensions(
+    extensions: typing.MutableMapping[str, typing.Any],
+) -> typing.MutableMapping[str, typing.Any]:
+    """
+    The "target" extension sets the request target of the request as the
+    origin is to see it. `Request()` applies it to whatever URL it is given,
+    so it must not be passed on to the request that goes to the proxy itself:
+    that one needs the absolute URL (forwarding), or the authority of the
+    origin (CONNECT), as its target.
+    """
+    return {k: v for k, v in extensions.items() if k != "target"}
+
+
 def merge_headers(
     default_headers: typing.Sequence[tuple[bytes, bytes]] | None = None,
     override_headers: typing.Sequence[tuple[bytes, bytes]] | None = None,
@@ -201,7 +214,7 @@ class ForwardHTTPConnection(ConnectionInterface):
             url=url,
             headers=headers,
             content=request.stream,
-            extensions=request.extensions,
+            extensions=proxy_request_extensions(request.extensions),
         )
         return self._connection.handle_request(proxy_request)
 
@@ -284,7 +297,7 @@ class TunnelHTTPConnection(ConnectionInterface):
                     method=b"CONNECT",
                     url=connect_url,
                     headers=connect_headers,
-                    extensions=request.extensions,
+                    extensions=proxy_request_extensions(request.extensions),
                 )
                 connect_response = self._connection.handle_request(
                     connect_request
